@@ -152,7 +152,7 @@ extern ssize_t mpt_encode_cobs(MPT_STRUCT(encode_state) *info, const struct iove
 			if (++code == MPT_COBS_MAXLEN) {
 				/* unable to save continuation state */
 				if (!left) {
-					--code; --dst;
+					--code; --dst; ++left;
 					dst[-code] = code;
 					++len; --src;
 					break;
@@ -171,6 +171,10 @@ extern ssize_t mpt_encode_cobs(MPT_STRUCT(encode_state) *info, const struct iove
 		}
 	}
 	
+	/* no source data could be taken, state is unchanged */
+	if (len == base->iov_len) {
+		return MPT_ERROR(MissingBuffer);
+	}
 	/* update processed data */
 	left = cobs->iov_len - left;
 	info->_ctx += left - info->done - info->scratch;
